@@ -39,6 +39,8 @@ type AsrtSpec struct {
 	IssueMs      int64      `json:"issue_ms"`
 	IssueText    string     `json:"issue_text,omitempty"` // non-empty: IssueInstant is written as exactly this text (instants a Duration from t0 cannot express)
 	Issuer       string     `json:"issuer"`
+	IssuerFormat string     `json:"issuer_format,omitempty"` // "": nameid-format:entity
+	IssuerNQ     string     `json:"issuer_name_qualifier,omitempty"`
 	NoSubject    bool       `json:"no_subject,omitempty"`
 	NoNameID     bool       `json:"no_nameid,omitempty"`
 	NoConditions bool       `json:"no_conditions,omitempty"`
@@ -61,8 +63,10 @@ type AsrtSpec struct {
 type RespSpec struct {
 	ID           string     `json:"id"`
 	IssueMs      int64      `json:"issue_ms"`
-	IssueText    string     `json:"issue_text,omitempty"` // non-empty: IssueInstant is written as exactly this text (instants a Duration from t0 cannot express)
-	Issuer       *string    `json:"issuer"`               // nil: absent
+	IssueText    string     `json:"issue_text,omitempty"`    // non-empty: IssueInstant is written as exactly this text (instants a Duration from t0 cannot express)
+	Issuer       *string    `json:"issuer"`                  // nil: absent
+	IssuerFormat string     `json:"issuer_format,omitempty"` // "": nameid-format:entity
+	IssuerNQ     string     `json:"issuer_name_qualifier,omitempty"`
 	Destination  string     `json:"destination"`
 	InResponseTo string     `json:"irt"`
 	Status       string     `json:"status"`
@@ -177,7 +181,7 @@ const bearer = "urn:oasis:names:tc:SAML:2.0:cm:bearer"
 
 func (a *AsrtSpec) toAssertion(t0 time.Time) *saml.Assertion {
 	as := &saml.Assertion{ID: a.ID, IssueInstant: t0.Add(ms(a.IssueMs)).UTC(), Version: "2.0",
-		Issuer: saml.Issuer{Format: "urn:oasis:names:tc:SAML:2.0:nameid-format:entity", Value: a.Issuer}}
+		Issuer: saml.Issuer{Format: firstNonEmpty(a.IssuerFormat, "urn:oasis:names:tc:SAML:2.0:nameid-format:entity"), NameQualifier: a.IssuerNQ, Value: a.Issuer}}
 	if !a.NoSubject {
 		sub := &saml.Subject{}
 		if !a.NoNameID {
@@ -301,7 +305,7 @@ func BuildResponseEl(s *RespSpec, t0 time.Time) *etree.Element {
 		r.Status.StatusCode.StatusCode = &saml.StatusCode{Value: s.SubStatus}
 	}
 	if s.Issuer != nil {
-		r.Issuer = &saml.Issuer{Format: "urn:oasis:names:tc:SAML:2.0:nameid-format:entity", Value: *s.Issuer}
+		r.Issuer = &saml.Issuer{Format: firstNonEmpty(s.IssuerFormat, "urn:oasis:names:tc:SAML:2.0:nameid-format:entity"), NameQualifier: s.IssuerNQ, Value: *s.Issuer}
 	}
 	el := r.Element()
 	rewriteTimes(el, s.TimeForm)
@@ -368,4 +372,11 @@ func containsAny(hay string, needles []string) string {
 		}
 	}
 	return ""
+}
+
+func firstNonEmpty(a, b string) string {
+	if a != "" {
+		return a
+	}
+	return b
 }
